@@ -1775,6 +1775,16 @@ std::string Generator::GeneratorImpl::generateInitialisationCode(const AnalyserV
     auto scalingFactor = Generator::GeneratorImpl::scalingFactor(initialisingVariable);
     std::string scalingFactorCode;
 
+    if (!isCellMLReal(initialisingVariable->initialValue())) {
+        // Note: the initial value is the name of a variable (in the same
+        //       component), which may itself have units that are scaled
+        //       compared to those of its corresponding analyser variable.
+
+        auto initialValueVariable = owningComponent(initialisingVariable)->variable(initialisingVariable->initialValue());
+
+        scalingFactor /= Generator::GeneratorImpl::scalingFactor(initialValueVariable);
+    }
+
     if (!areNearlyEqual(scalingFactor, 1.0)) {
         scalingFactorCode = generateDoubleCode(convertToString(1.0 / scalingFactor)) + mProfile->timesString();
     }
